@@ -67,6 +67,9 @@ func (r IndicationRejected) String() string {
 func rejectedIndications(tr *mc.Trace, prop string) []h.Violation {
 	var vs []h.Violation
 	for _, e := range tr.Log {
+		if x, ok := e.V.(fakesock.WireRejected); ok {
+			vs = append(vs, h.Violation{Class: prop + ":well-formed-frame-dropped-by-the-decoder", Msg: fmt.Sprintf("the frame %s, put on the wire by the reference encoder, was rejected by the library's decoder (%s): it never reaches the client", x.Frame, x.Err)})
+		}
 		if x, ok := e.V.(IndicationRejected); ok {
 			if x.Kind == "busy" && x.Value > 500 {
 				continue // beyond the quantified 0..500 ms
